@@ -8,7 +8,8 @@
 //   - splits `x.f++` / `x.f--` on struct fields in concurrentmap.go and
 //     pubsub_struct.go into load; yield; store, so that a lost update on an
 //     unsynchronised counter is a schedulable, replayable event;
-//   - replaces the 100 ms poll period of the blocking pops by 100 ms + 1 ns.
+//   - replaces the 100 ms poll period of the blocking pops by 100 ms + 1 ns;
+//   - sorts the key list KEYS scans (Go map order cannot be seeded).
 //
 // Nothing under <repo> is modified; the rewritten copies live in -out.
 package main
@@ -75,6 +76,13 @@ func main() {
 			}
 			if base == "list.go" && strings.Contains(src, "time.NewTicker(100 * time.Millisecond)") {
 				src = strings.Replace(src, "time.NewTicker(100 * time.Millisecond)", "time.NewTicker(verifvsync.PollInterval())", 1)
+				src = strings.Replace(src, "import (", "import (\n\t\"github.com/innovationb1ue/RedisGO/verifvsync\"", 1)
+			}
+			if base == "keys.go" && strings.Contains(src, "allKeys := m.db.Keys()") {
+				// KEYS walks the keyspace in Go map order, which no seed controls: in
+				// the simulated build the scan (and with it the order of its lock
+				// requests) is made canonical
+				src = strings.Replace(src, "allKeys := m.db.Keys()", "allKeys := m.db.Keys()\n\tverifvsync.SortStrings(allKeys)", 1)
 				src = strings.Replace(src, "import (", "import (\n\t\"github.com/innovationb1ue/RedisGO/verifvsync\"", 1)
 			}
 			if src != orig {
